@@ -19,7 +19,7 @@ from pvm.gen import c31_shapes as sh
 from pvm.ref import c31_exact as ex
 
 PROP = "C31"
-N = {"quick": 1600, "thorough": 120000}
+N = {"quick": 1600, "thorough": 100000}
 WORKERS = {"quick": 4, "thorough": 16}
 TIMEOUT = {"quick": 600, "thorough": 3000}
 CASE_TIMEOUT = 60.0
